@@ -170,8 +170,8 @@ theorem recvViaReceiver_post (c : Cfg) (fuel : Nat) : ∀ s, cliRev s.trace = tr
           simp [setState, latestSes, ht]
         · split
           · exact ⟨hq, fun y hy => by cases hy⟩
-          · refine ⟨hq, fun y hy => ?_⟩
-            cases hy; rw [ht]; rfl
+          · refine ⟨by simpa using hq, fun y hy => ?_⟩
+            cases hy; simp only [stopsEstablished_trace]; rw [ht]; rfl
       | other => exact ih _ hq
       | sesGone y => exact ⟨hq, fun x hx => by cases hx⟩
       | fail b => exact ⟨hq, fun x hx => by cases hx⟩
